@@ -187,6 +187,21 @@ def _build_fresh(k, R):
         raise R.err
 
 
+MODNAME = os.environ.get("XH_MODNAME")
+if MODNAME:
+    # the user's plan-building functions live in a module of the user's own whose NAME happens to start like the library's
+    # (e.g. "uberjob_pipeline"): same code objects (file, lines), other f_globals["__name__"]
+    import types as _types
+
+    _g = dict(globals())
+    _g["__name__"] = MODNAME
+    for _n in ("_mk_source", "_site", "_nest", "_fresh_bottom"):
+        _f = globals()[_n]
+        _g[_n] = _types.FunctionType(_f.__code__, _g, _n, _f.__defaults__, _f.__closure__)
+    for _n in ("_mk_source", "_site", "_nest", "_fresh_bottom"):
+        globals()[_n] = _g[_n]
+
+
 def _mk_fn(tag, fault, good, bad):
     def f(*a):
         if fault == "raise":
